@@ -150,6 +150,8 @@ func (b c39TB) Fatal(args ...any)                 { panic(c39Retry{fmt.Sprint(ar
 
 // c39Net = vNewNet with randomness pinned exactly as vNewNet does it, retried on the assembly flake.
 func c39Net(t testing.TB, seed int64, specs []vnodeSpec) (net *vnet) {
+	// one P while the nodes are assembled: the goroutine the assembly waits for then runs on this very thread
+	defer runtime.GOMAXPROCS(runtime.GOMAXPROCS(1))
 	for attempt := 0; ; attempt++ {
 		func() {
 			defer func() {
@@ -1062,9 +1064,6 @@ func c39Search(t *testing.T, c *mc.Check, st *c39Stats, cfg c39Cfg, roots [][]c3
 func TestVerifC39(t *testing.T) {
 	c := mc.Begin(t, "C39", "model_checking")
 	defer c.End()
-	// the whole search is serial (process-global clock and randomness); one P keeps the node assembly's goroutine hand-off
-	// on this thread, which matters on an oversubscribed machine
-	defer runtime.GOMAXPROCS(runtime.GOMAXPROCS(1))
 	st := &c39Stats{trans: map[string]int64{}}
 
 	// determinism: one fixed history twice — identical wire bytes and canonical state
